@@ -16,7 +16,8 @@ from .explore import EX, Unsupported, Infeasible
 
 RNE = z3.RNE()
 FSORT = {'f4': z3.Float32(), 'f8': z3.Float64()}
-MODE = {'numba': False}      # numba typing mode: python int/float literals are int64/float64 (strong)
+MODE = {'numba': False}
+REALS = {'div': False}       # exact domain: allow symbolic/symbolic division as rational division (reals-for-floats assumption)      # numba typing mode: python int/float literals are int64/float64 (strong)
 
 
 def kind_of_dtype(dt):
@@ -35,7 +36,7 @@ def kind_of_dtype(dt):
 
 
 _DT = {'f4': np.float32, 'f8': np.float64, 'b': np.bool_, 'i8': np.int64, 'i4': np.int32, 'i2': np.int16, 'i1': np.int8,
-       'u8': np.uint64, 'u4': np.uint32, 'u2': np.uint16, 'u1': np.uint8, 'x4': np.float32, 'O': object}
+       'u8': np.uint64, 'u4': np.uint32, 'u2': np.uint16, 'u1': np.uint8, 'x4': np.float32, 'xi': np.int64, 'O': object}
 
 
 def dtype_of_kind(k):
@@ -43,6 +44,8 @@ def dtype_of_kind(k):
 
 
 def bits(k):
+    if k == 'xi':
+        return 64
     return int(k[1:]) * 8
 
 
@@ -113,6 +116,8 @@ def xlift(x):
             return x.t
         if x.k == 'b':
             return X(z3.IntVal(0), z3.If(x.t, z3.RealVal(1), z3.RealVal(0)))
+        if x.k == 'xi':
+            return X(z3.IntVal(0), z3.ToReal(x.t))
         if x.k[0] in 'iu':
             v = z3.BV2Int(x.t, is_signed=(x.k[0] == 'i'))
             return X(z3.IntVal(0), z3.ToReal(v))
@@ -126,7 +131,7 @@ def xlift(x):
         return X(z3.IntVal(3), z3.RealVal(0))
     from fractions import Fraction
     fr = Fraction(f)
-    if fr.denominator > (1 << 24) or abs(fr.numerator) >= (1 << 60):
+    if (fr.denominator > (1 << 24) or abs(fr.numerator) >= (1 << 60)) and not REALS['div']:
         raise Unsupported('constant %r is not exactly representable in the exact domain' % (x,))
     return X(z3.IntVal(0), z3.RealVal(str(fr)))
 
@@ -160,7 +165,12 @@ def xbin(op, a, b):
     if op == 'truediv':
         # only division by a non-zero power-of-two constant keeps exactness
         if isinstance(b, Sym):
-            raise Unsupported('exact domain: division by a symbolic value')
+            if not REALS['div']:
+                raise Unsupported('exact domain: division by a symbolic value')
+            # reals-for-floats mode (declared assumption of the harness): rational division; a zero divisor raises in numba
+            EX.obligations.append(('no-zero-division', z3.Or(B.tag != 0, B.val != 0)))
+            tag = z3.simplify(z3.If(anynan, 1, z3.If(fin, 0, 1)))
+            return Sym(X(tag, z3.If(z3.And(tag == 0, B.val != 0), A.val / B.val, 0)), 'x4')
         fb = float(b)
         if fb == 0 or fb != fb or abs(fb) == float('inf'):
             raise Unsupported('exact domain: division by %r' % fb)
@@ -192,6 +202,8 @@ def lift(x, k):
         return cast(x, k).t
     if k == 'x4':
         return xlift(x)
+    if k == 'xi':
+        return xilift(x)
     if k in FSORT:
         f = float(x)
         if f != f:
@@ -227,6 +239,11 @@ def kind_of(x):
 def promote(ka, kb):
     if 'x4' in (ka, kb):
         return 'x4'
+    if 'xi' in (ka, kb):
+        o = kb if ka == 'xi' else ka
+        if o in FSORT or o == 'pyfloat':
+            return 'x4' if o == 'pyfloat' else _unsup('exact integer mixed with bit-precise float')
+        return 'xi'
     if ka == 'pyint':
         ka = kb if kb not in ('b', 'pyint', 'pyfloat') else ('i8' if kb != 'pyfloat' else 'f8')
     if kb == 'pyint':
@@ -246,17 +263,70 @@ def promote(ka, kb):
     return kind_of_dtype(np.result_type(dtype_of_kind(ka), dtype_of_kind(kb)))
 
 
+def _unsup(msg):
+    raise Unsupported(msg)
+
+
+def xilift(x):
+    """scalar -> z3 Int term (exact integer domain)"""
+    if isinstance(x, Sym):
+        if x.k == 'xi':
+            return x.t
+        if x.k == 'b':
+            return z3.If(x.t, z3.IntVal(1), z3.IntVal(0))
+        if x.k[0] in 'iu':
+            return z3.BV2Int(x.t, is_signed=(x.k[0] == 'i'))
+        raise Unsupported('kind %s in the exact integer domain' % x.k)
+    return z3.IntVal(int(x))
+
+
+def xibin(op, a, b):
+    ta, tb = xilift(a), xilift(b)
+    if op in CMP:
+        f = {'lt': ta < tb, 'le': ta <= tb, 'gt': ta > tb, 'ge': ta >= tb, 'eq': ta == tb, 'ne': ta != tb}[op]
+        return mkbool(f)
+    if op in ('add', 'sub', 'mul'):
+        return Sym(z3.simplify({'add': ta + tb, 'sub': ta - tb, 'mul': ta * tb}[op]), 'xi')
+    if op in ('min', 'max'):
+        c = (ta < tb) if op == 'min' else (ta > tb)
+        return Sym(z3.simplify(z3.If(c, ta, tb)), 'xi')
+    if op in ('floordiv', 'mod'):
+        if isinstance(b, Sym) or int(b) <= 0:
+            raise Unsupported('exact integer %s by a non-constant or non-positive divisor' % op)
+        return Sym(z3.simplify(ta / tb if op == 'floordiv' else ta % tb), 'xi')     # z3 Int div/mod floor for positive divisors
+    if op == 'truediv':
+        return xbin('truediv', Sym(X(z3.IntVal(0), z3.ToReal(ta)), 'x4'), b if not isinstance(b, Sym) else Sym(xlift(b), 'x4'))
+    raise Unsupported('exact integer op %s' % op)
+
+
 def cast(x, k):
     if k == 'O':
         return x
+    if k == 'xi':
+        if isinstance(x, Sym):
+            if x.k == 'xi':
+                return x
+            if x.k == 'x4':
+                v = x.t.val
+                return Sym(z3.simplify(z3.If(v >= 0, z3.ToInt(v), -z3.ToInt(-v))), 'xi')
+            return Sym(xilift(x), 'xi')
+        return np.int64(x)
+    if isinstance(x, Sym) and x.k == 'xi':
+        if k in ('i8', 'xi'):
+            return x
+        if k in ('x4', 'f4', 'f8'):
+            return Sym(X(z3.IntVal(0), z3.ToReal(x.t)), 'x4')
+        if k == 'b':
+            return mkbool(x.t != 0)
+        if k[0] in 'iu':
+            return Sym(z3.Int2BV(x.t, bits(k)), k)
     if isinstance(x, Sym) and x.k == 'x4':
         if k in ('f4', 'f8', 'x4'):
             return x
         if k[0] in 'iu':
-            # truncation toward zero of an exact value
+            # truncation toward zero of an exact value: stays in the exact integer domain
             v = x.t.val
-            iv = z3.If(v >= 0, z3.ToInt(v), -z3.ToInt(-v))
-            return Sym(z3.Int2BV(iv, bits(k)), k)
+            return Sym(z3.simplify(z3.If(v >= 0, z3.ToInt(v), -z3.ToInt(-v))), 'xi')
         if k == 'b':
             return mkbool(z3.Or(x.t.tag != 0, x.t.val != 0))
     if not isinstance(x, Sym):
@@ -309,6 +379,12 @@ def binop(op, a, b):
         if op in ('and', 'or', 'xor', 'floordiv', 'mod', 'lshift', 'rshift'):
             raise Unsupported('exact domain op %s' % op)
         return xbin(op, a, b)
+    if ka == 'xi' or kb == 'xi':
+        if (ka in FSORT or kb in FSORT):
+            raise Unsupported('exact integer mixed with bit-precise float')
+        if ka == 'pyfloat' or kb == 'pyfloat':
+            return xbin(op, Sym(xlift(a), 'x4') if isinstance(a, Sym) else a, Sym(xlift(b), 'x4') if isinstance(b, Sym) else b)
+        return xibin(op, a, b)
     k = promote(ka, kb)
     if op == 'truediv' and k not in FSORT:
         k = 'f8'
@@ -378,6 +454,8 @@ def sneg(a):
         return Sym(X(z3.simplify(z3.If(t.tag == 2, 3, z3.If(t.tag == 3, 2, t.tag))), z3.simplify(-t.val)), 'x4')
     if a.k == 'b':
         raise Unsupported('negation of a boolean')
+    if a.k == 'xi':
+        return Sym(z3.simplify(-a.t), 'xi')
     return Sym(z3.fpNeg(a.t), a.k) if a.k in FSORT else Sym(-a.t, a.k)
 
 
@@ -388,6 +466,8 @@ def sabs(a):
         return Sym(X(z3.simplify(z3.If(a.t.tag == 3, 2, a.t.tag)), z3.simplify(z3.If(a.t.val < 0, -a.t.val, a.t.val))), 'x4')
     if a.k in FSORT:
         return Sym(z3.fpAbs(a.t), a.k)
+    if a.k == 'xi':
+        return Sym(z3.simplify(z3.If(a.t < 0, -a.t, a.t)), 'xi')
     if a.k[0] == 'u':
         return a
     return Sym(z3.If(a.t < 0, -a.t, a.t), a.k)
@@ -511,6 +591,8 @@ def ite(c, a, b):
     if ka == 'x4' or kb == 'x4':
         A, B = xlift(a), xlift(b)
         return Sym(X(z3.simplify(z3.If(ct, A.tag, B.tag)), z3.simplify(z3.If(ct, A.val, B.val))), 'x4')
+    if ka == 'xi' or kb == 'xi':
+        return Sym(z3.simplify(z3.If(ct, xilift(a), xilift(b))), 'xi')
     if sa or sb:
         k = promote(ka, kb)
     else:
@@ -531,13 +613,32 @@ def term_eq(a, b, k=None):
     if k == 'x4':
         A, B = xlift(a), xlift(b)
         return z3.And(A.tag == B.tag, z3.Or(A.tag != 0, A.val == B.val))
+    if k == 'xi':
+        return xilift(a) == xilift(b)
     ta, tb = lift(a, k), lift(b, k)
     if k in FSORT:
         return z3.Or(z3.And(z3.fpIsNaN(ta), z3.fpIsNaN(tb)), ta == tb)
     return ta == tb
 
 
+def to_obj(a):
+    """typed ndarray -> object ndarray whose elements are *numpy scalars* (astype(object) would give python scalars,
+    which are weakly typed in promotions)"""
+    if a.dtype == object:
+        return a
+    o = np.empty(a.shape, dtype=object)
+    if a.size:
+        if a.dtype.kind in 'biuf':
+            flat = o.reshape(-1)
+            flat[:] = list(a.reshape(-1))      # list() of a typed 1-d array yields numpy scalars
+            o = flat.reshape(a.shape)
+        else:
+            o[...] = a.astype(object)
+    return o
+
+
 def _elt(f, *arrs):
+    arrs = [to_obj(x) if (isinstance(x, np.ndarray) and x.dtype != object) else x for x in arrs]
     return np.frompyfunc(f, len(arrs), 1)(*arrs)
 
 
@@ -546,6 +647,8 @@ def _obj(a):
         return a._a
     if isinstance(a, Masked):
         raise Unsupported('lazy masked view used as a full array')
+    if isinstance(a, np.ndarray) and a.dtype != object:
+        return to_obj(a)
     return a
 
 
@@ -612,7 +715,7 @@ class SymArray:
     def __init__(self, a, kind):
         if isinstance(a, SymArray):
             a = a._a
-        self._a = a if (isinstance(a, np.ndarray) and a.dtype == object) else np.asarray(a).astype(object)
+        self._a = a if (isinstance(a, np.ndarray) and a.dtype == object) else to_obj(np.asarray(a))
         self.kind = kind
 
     shape = property(lambda s: s._a.shape)
@@ -701,7 +804,7 @@ class SymArray:
 
     def _candidates(self, i, n):
         """python-style index i (Sym int) into an axis of length n: record in-bounds obligation, yield (cond, j)"""
-        it = cast(i, 'i8').t
+        it = i.t if (isinstance(i, Sym) and i.k == 'xi') else cast(i, 'i8').t
         EX.obligations.append(('in-bounds', z3.And(it >= -n, it < n)))
         return [(mkbool(z3.Or(it == j, it == j - n)), j) for j in range(n)]
 
@@ -838,6 +941,10 @@ class SymArray:
             return SymArray(self._a.copy(), self.kind)
         if self.kind == 'x4' and k in ('f4', 'f8'):
             return SymArray(self._a.copy(), 'x4')
+        if self.kind in ('x4', 'xi') and k[0] in 'iu' and k != 'u2':
+            return SymArray(_elt(lambda e: cast(e, 'xi'), self._a), 'xi')
+        if self.kind == 'xi' and k in ('f4', 'f8'):
+            return SymArray(_elt(lambda e: cast(e, 'x4'), self._a), 'x4')
         return SymArray(_elt(lambda e: cast(e, k), self._a), k)
 
     def copy(self, *a, **k):
@@ -1118,7 +1225,7 @@ def _reduce(op, arr, axis, kind=None, keepdims=False):
     rest = [i for i in range(a.ndim) if i not in axes]
     t = a.transpose(rest + list(axes))
     lead = t.shape[:len(rest)]
-    t = t.reshape(lead + (-1,))
+    t = t.reshape(lead + (int(np.prod(t.shape[len(rest):], dtype=np.int64)),))
     out = np.empty(lead, dtype=object)
     for idx in np.ndindex(*lead):
         out[idx] = op(list(t[idx]))
@@ -1648,21 +1755,33 @@ def fresh_scalar(name, kind):
     return Sym(t, kind)
 
 
-def fresh_array(name, shape, kind, tagged=False):
-    """array of fresh symbolic scalars.  kind 'x4': integer-valued finite samples (tagged=True: symbolic tag too)"""
+def fresh_array(name, shape, kind, tagged=False, scale=1, tags=(0, 1, 2, 3), real=False):
+    """array of fresh symbolic scalars.  kind 'x4': finite samples n/scale with n a symbolic integer
+    (tagged=True: symbolic tag among `tags` too: 0 finite, 1 NaN, 2 +inf, 3 -inf)"""
     a = np.empty(shape, dtype=object)
     for idx in np.ndindex(*shape):
         nm = name + '_' + '_'.join(map(str, idx))
         if kind == 'x4':
-            iv = z3.Int(nm)
+            if real:
+                # real-valued sample (superset of the dyadic rationals): pure real arithmetic is much easier for the solver;
+                # EX.real_inputs lets the collector ask for a float32-representable model when a query is sat
+                iv = z3.Real(nm); val = iv
+                EX.real_inputs.append(iv)
+            else:
+                iv = z3.Int(nm)
+                val = z3.ToReal(iv) if scale == 1 else z3.ToReal(iv) / scale
             if tagged:
                 tg = z3.Int(nm + '_t')
-                EX.assume(z3.And(tg >= 0, tg <= 3))
-                a[idx] = Sym(X(tg, z3.If(tg == 0, z3.ToReal(iv), z3.RealVal(0))), 'x4')
-                _reg(name, idx, (tg, iv))
+                EX.assume(z3.Or(*[tg == t for t in tags]))
+                a[idx] = Sym(X(tg, z3.If(tg == 0, val, z3.RealVal(0))), 'x4')
+                _reg(name, idx, (tg, iv, scale))
             else:
-                a[idx] = Sym(X(z3.IntVal(0), z3.ToReal(iv)), 'x4')
-                _reg(name, idx, (z3.IntVal(0), iv))
+                a[idx] = Sym(X(z3.IntVal(0), val), 'x4')
+                _reg(name, idx, (z3.IntVal(0), iv, scale))
+            continue
+        if kind == 'xi':
+            iv = z3.Int(nm)
+            a[idx] = Sym(iv, 'xi'); _reg(name, idx, iv)
             continue
         t = z3.FP(nm, FSORT[kind]) if kind in FSORT else (z3.Bool(nm) if kind == 'b' else z3.BitVec(nm, bits(kind)))
         a[idx] = Sym(t, kind)
@@ -1681,7 +1800,10 @@ def model_arrays(model_out, shapes_kinds):
         for idx, raw in vals.get(name, []):
             if isinstance(raw, tuple) and raw[0] == 'x':
                 tag, val = raw[1], raw[2]
-                v = {0: float(val), 1: float('nan'), 2: float('inf'), 3: float('-inf')}[tag]
+                sc = raw[3] if len(raw) > 3 else 1
+                if isinstance(val, tuple):
+                    val = (val[1] / val[2]) if val[0] == 'q' else float('nan')
+                v = {0: float(val) / sc, 1: float('nan'), 2: float('inf'), 3: float('-inf')}[tag]
             elif isinstance(raw, tuple):
                 v = fp_from_raw(raw)
             else:
